@@ -165,6 +165,25 @@ func c06Run(c *Ctx, sc c06Scen, seed uint64) {
 	check2("flag", cfg3)
 	os.Remove("moved.fail")
 	CleanFailFiles()
+	// history 3: the failing run itself was started with a stale -rapid.failfile (written by another version):
+	// the stale file is ignored, the failure found by the random search is persisted all the same and replayed next time
+	os.WriteFile("stale.fail", []byte("# stale\nv0.0.1#3\n0x1"), 0o644)
+	cfgS := cfg
+	cfgS.FailFile = "stale.fail"
+	envS := NewEnv(nil, prog.Base)
+	logS := RunCheck(prog, envS, cfgS)
+	c.R.Evals++
+	vS := logS.Verdict()
+	os.Remove("stale.fail")
+	if vS.Class != "failed" && vS.Class != "panic" {
+		viol("run-with-stale-flag-did-not-fail", "class "+vS.Class)
+	} else if len(logS.Files) != 1 {
+		viol("failure-not-persisted run=with-stale-flag", fmt.Sprintf("%d files under testdata after a failing run that was given a stale -rapid.failfile: %v", len(logS.Files), sortedKeys(logS.Files)))
+	} else {
+		last1 = envS.Invs[len(envS.Invs)-1]
+		check2("after-stale-flag", cfg2)
+	}
+	CleanFailFiles()
 }
 
 func chunkDesc(cs []string) []string {
